@@ -96,6 +96,10 @@ let game : game option ref = ref None
 let hist : string list ref = ref []
 let sdepth : int ref = ref 1
 
+(* the implementation's observation printed under the operation being executed (ops whose model
+   answer validates what the implementation chose rather than predicting it: `watch`) *)
+let next_obs : string option ref = ref None
+
 let out = Buffer.create 65536
 let emit s = Buffer.add_string out s; Buffer.add_char out '\n'
 let obs s = emit ("< " ^ s)
@@ -452,6 +456,66 @@ let exec (op : string) : unit =
              ignore b;
              game := Some { gboard = !b0; ghist = []; gdepth = n_of_int (int_of_string d) }; hist := []; "ok"
          | None -> "PANIC")
+    | [ "clicount"; d ] ->
+        (* `chess count-positions --depth d`: for k = 1..d the cumulative number of move sequences of
+           lengths 1..k+1 from the standard starting position, by the rules' perft *)
+        let d = int_of_string d in
+        let p = initial_position in
+        let per = Array.init (d + 2) (fun k -> if k = 0 then 0 else int_of_n (perft (nat_of_int k) p)) in
+        let cum k = let t = ref 0 in for j = 1 to k + 1 do t := !t + per.(j) done; !t in
+        let items = List.init d (fun i -> Printf.sprintf "%d:%d" (i + 1) (cum (i + 1))) in
+        let total = List.fold_left (+) 0 (List.init d (fun i -> cum (i + 1))) in
+        Printf.sprintf "clicount %d %s total:%d" d (String.concat " " items) total
+    | [ "watch"; limit; d ] ->
+        (* the real watch loop chose the moves (random book continuation, search): the model validates
+           them - every printed label must be the notation of a legal move in the position reached, the
+           half-move clock shown must be the model's, the loop must stop exactly when the model's
+           game_ending / the move limit says so - and answers with what it validated *)
+        let limit = int_of_string limit in
+        let b0 = ref board_new in
+        String.iteri (fun i ch -> if ch <> '.' then let (p, c) = parse_pchar ch in
+                        match put tbl !b0 (n_of_int i) p c with Ok y -> b0 := y | _ -> ())
+          "RNBQKBNRPPPPPPPP................................pppppppprnbqkbnr";
+        let g = ref { gboard = !b0; ghist = []; gdepth = n_of_int (int_of_string d) } in
+        let impl = match !next_obs with Some o -> o | None -> "" in
+        let itoks = List.filter (fun x -> x <> "") (String.split_on_char ' ' impl) in
+        (match itoks with
+         | "watch" :: iend :: moves ->
+             let ok = ref true in
+             let stop_reason (gm : game) : string option =
+               match game_ending tbl rk bs gm.gboard gm.gboard.turn with
+               | Ok (Some Checkmate, _) -> Some "checkmate"
+               | Ok (Some Stalemate, _) -> Some "stalemate"
+               | Ok (Some Draw, _) -> Some "draw"
+               | Ok (None, _) -> if limit > 0 && int_of_n gm.gboard.fullmove > limit then Some "limit" else None
+               | _ -> Some "PANIC" in
+             let done_ = ref [] in
+             List.iteri (fun k tok ->
+                 if !ok then begin
+                   (match stop_reason !g with
+                    | Some r -> ok := false;
+                        spec_fail (Printf.sprintf "C15 watch: the loop made move %d (%s) although it should have stopped with `%s` in [%s]" (k + 1) tok r (snap_of !g.gboard))
+                    | None -> ());
+                   if !ok then
+                   match String.split_on_char '/' tok with
+                   | [ san; half ] ->
+                       (match apply_by_notation tbl rk bs !g (chars_of_string san) with
+                        | GOk (_, g') ->
+                            let g'' = { g' with gboard = toggle_turn g'.gboard } in
+                            (match halfmove g''.gboard with
+                             | Ok h when int_of_n h = int_of_string half -> ()
+                             | Ok h -> spec_fail (Printf.sprintf "C16 watch: half-move clock shown as %s after move %d (%s), the model has %d" half (k + 1) san (int_of_n h))
+                             | _ -> ());
+                            g := g''; done_ := tok :: !done_
+                        | _ -> ok := false;
+                            spec_fail (Printf.sprintf "C15 watch: move %d was printed as `%s`, which is not the notation of a legal move in [%s]" (k + 1) san (snap_of !g.gboard)))
+                   | _ -> ok := false
+                 end) moves;
+             let mend = if !ok then (match stop_reason !g with Some r -> r | None -> "running") else "invalid" in
+             if !ok && mend <> iend then
+               spec_fail (Printf.sprintf "C15 watch: the loop ended with `%s` after %d moves where the model says `%s` in [%s]" iend (List.length moves) mend (snap_of !g.gboard));
+             Printf.sprintf "watch %s %s" mend (String.concat " " (List.rev !done_))
+         | _ -> "watch ?")
     | [ "gcoord"; f; t ] ->
         (match !game with
          | None -> "PANIC"
@@ -595,16 +659,18 @@ let exec (op : string) : unit =
 
 let () =
   load_zobrist Sys.argv.(1);
-  (try
-     while true do
-       let l = String.trim (input_line stdin) in
-       if l = "" then ()
-       else match l.[0] with
-         | '<' | '!' | '=' -> ()
-         | '#' -> ()
-         | _ ->
-             exec l;
-             if Buffer.length out > 60000 then (print_string (Buffer.contents out); Buffer.clear out)
-     done
-   with End_of_file -> ());
+  let lines = ref [] in
+  (try while true do lines := String.trim (input_line stdin) :: !lines done with End_of_file -> ());
+  let arr = Array.of_list (List.rev !lines) in
+  let n = Array.length arr in
+  Array.iteri (fun i l ->
+      if l = "" then ()
+      else match l.[0] with
+        | '<' | '!' | '=' -> ()
+        | '#' -> ()
+        | _ ->
+            next_obs := (if i + 1 < n && String.length arr.(i + 1) >= 2 && String.sub arr.(i + 1) 0 2 = "< "
+                         then Some (String.sub arr.(i + 1) 2 (String.length arr.(i + 1) - 2)) else None);
+            exec l;
+            if Buffer.length out > 60000 then (print_string (Buffer.contents out); Buffer.clear out)) arr;
   print_string (Buffer.contents out)
